@@ -102,6 +102,18 @@ def _build(c, src=None):
 
 def run_impl(c):
     import numpy as np
+    if c["k"] == "short":
+        from nitypes.waveform import DigitalWaveform
+        arr = np.arange(c["rows"] * 3, dtype=np.uint8).reshape(c["rows"], 3)
+        src = arr if c["form"] == "array" else arr.tolist()
+        try:
+            got = DigitalWaveform.from_ports(src, [0xFF] * c["masks"])
+            raised = False
+            if len(got) != c["rows"]:
+                raised = False      # served with another number of waveforms than ports: not a refusal
+        except Exception:
+            raised = True
+        return {"raised": raised, "n": -1 if raised else len(got)}
     if c["k"] == "mem":
         from nitypes.waveform._digital._port import port_to_line_data
         k, v = c["bytes"], c["v"]
@@ -152,6 +164,10 @@ def run_impl(c):
 
 
 def to_coq(c, r):
+    if c["k"] == "short":
+        # enough masks: judged by the number of waveforms (reported as a refusal when it is not one per port)
+        ok = r["raised"] if c["masks"] < c["rows"] else (not r["raised"] and r["n"] == c["rows"])
+        return "PortsShort %s %s %s" % (vf.zc(c["rows"]), vf.zc(c["masks"]), vf.boolc(r["raised"] if c["masks"] < c["rows"] else ok))
     if c["k"] == "mem":
         return "PortMem %s %s %s %s %s %s %s" % (vf.natc(c["bytes"]), vf.boolc(c["big"]), vf.zc(c["v"]), vf.listc(r["mem_le"]),
                                                    vf.listc(r["mem_be"]), vf.listc(r["row_le"]), vf.listc(r["row_be"]))
@@ -179,6 +195,8 @@ def _mask_class(m, w):
 
 
 def sig(c, r):
+    if c["k"] == "short":
+        return "short|%s|%d|%d|%s" % (c["form"], c["rows"], c["masks"], r["raised"]), True
     if c["k"] == "mem":
         v = c["v"]
         return "mem|%d|%s|%s" % (c["bytes"], c["big"], "0" if v == 0 else "pow2" if v & (v - 1) == 0 else "hi" if v >> (8 * c["bytes"] - 1) else "mid"), True
@@ -220,6 +238,10 @@ def gen_cases(rng, tier):
     cases = []
     for m in [0, 1, 255, 256, 65535, 65536, (1 << 32) - 1, 1 << 32, (1 << 40), 0xDEADBEEF, -1, -256, 0x100, 0xF0]:
         cases.append({"k": "dtype", "mask": m})
+    # from_ports with fewer masks than ports (must be refused) and with exactly as many (one waveform per port)
+    for form in ("array", "list"):
+        for rows, masks in ((2, 1), (3, 1), (3, 2), (2, 0), (2, 2), (1, 1), (3, 3)):
+            cases.append({"k": "short", "form": form, "rows": rows, "masks": masks})
     # memory images: the bytes NumPy holds for one value in either byte order, and the row the pipeline makes of them
     for _ in range(300 if not big_tier else 5000):
         kb = rng.choice([1, 2, 4])
